@@ -190,6 +190,10 @@ def c20_rf21(run):
     rf_mir2c.rf95(run)
     run.min_instances('RF95', 6)
     rf_vocab.rf103(run)
+    rf_mir2c.rf112(run)
+    sh = run.shadow()
+    rf_mir2c.rf112(sh, units=(run.control_tu('rf112_control.c'),))
+    run.control('RF112', 'rf112_control.c', {f.func for f in sh.findings} == {'print_bad'})
     run.min_instances('RF21', 8)
     rf_vocab.rf37(run, 'mir2c', ('MIR_module2c',))
     run.min_instances('RF37', 3)
@@ -208,6 +212,7 @@ def c11_vocab(run):
     run.min_instances('RF82', 40)
     rf_vocab.rf96(run)
     rf_bounds.rf88(run)
+    rf_vocab.rf85b(run)
 
 
 def c10_vocab(run):
@@ -224,6 +229,7 @@ def c10_vocab(run):
     rf_vocab.rf80(run)
     rf_vocab.rf85(run)
     rf_vocab.rf103(run)
+    rf_vocab.rf106(run)
 
 
 def c17_rf2(run):
@@ -235,6 +241,7 @@ def c17_rf2(run):
     rf_alloc.rf78(run)
     run.min_instances('RF78', 30)
     rf_alloc.rf78b(run, units=('gen', 'mir'))
+    rf_alloc.rf109(run)
     run.min_instances('RF78b', 20)
 
 
@@ -309,6 +316,7 @@ def c01_rf18(run):
     rf_flow.rf97(run)
     rf_flow.rf99(run)
     rf_flow.rf67(run, units=('gen',))
+    rf_x86.rf110(run)
 
 
 def c04_rf18(run):
@@ -337,6 +345,7 @@ def c04_rf18(run):
     rf_inline.rf90(run)
     rf_inline.rf91(run)
     rf_inline.rf98(run)
+    rf_inline.rf113(run)
     rf_fold.rf100(run)
     rf_flow.rf71(run, units=('mir',))
     run.min_instances('RF71', 3)
@@ -353,6 +362,7 @@ def c16_rf16(run):
     rf_proto.rf16k(run)
     rf_iface.rf42b(run)
     rf_inline.rf56(run)
+    rf_proto.rf107(run)
     rf_proto.rf66(run)
     run.min_instances('RF66', 4)
     rf_x86.rf77(run)
@@ -370,6 +380,7 @@ def c13_rf16(run):
     run.min_instances('RF24', 12)
     rf_proto.rf16l(run)
     rf_proto.rf79(run)
+    rf_proto.rf108(run)
 
 
 def c14_rf16f(run):
@@ -419,6 +430,7 @@ def c03_rf11(run):
     rf_x86.rf77(run)
     rf_iface.rf89(run)
     rf_x86.rf104(run)
+    rf_abi.rf111(run)
 
 
 def c06_rf11(run):
@@ -475,6 +487,7 @@ def c06_rf10(run):
     rf_flow.rf43(run)
     rf_dispatch.rf7f(run)
     run.min_instances('RF7f', 30)
+    rf_abi.rf111(run)
 
 
 def c02_rf9(run):
@@ -494,6 +507,7 @@ def c02_rf26(run):
     rf_fold.rf26(run)
     run.min_instances('RF26', 10)
     rf_fold.rf34(run)
+    rf_fold.rf38(run)
     rf_fold.rf38b(run)
     rf_fold.rf39(run)
     rf_fold.rf40(run)
